@@ -147,7 +147,7 @@ def clocktime_round_trip(repo):
         if name.endswith(".startswith"):
             return ev.ev(n.func.value).startswith(ev.ev(n.args[0]))
         if name == "_sec_to_string":
-            sub = Ev({"sec": ev.ev(n.args[0])}, None, hook)
+            sub = Ev({s2s.args.args[0].arg: ev.ev(n.args[0])}, None, hook)
             return sub.run(s2s.body)
         return NotImplemented
 
@@ -175,7 +175,9 @@ def clocktime_round_trip(repo):
 
 
 # ------------------------------------------------------------------ generic string-level evaluation helpers (stdlib modelled, no repository code runs)
-def _string_evaluator(repo):
+def _string_evaluator(repo, siblings=None):
+    """siblings: optional {call text such as 'cls._helper' or '_helper': FunctionDef} of further pure helpers the evaluated function may call
+    (methods reached through self / cls / the class name, functions of its module); they are evaluated the same way."""
     import ast
     import re as _re
     from ..src import unparse
@@ -232,8 +234,39 @@ def _string_evaluator(repo):
         if name in helpers:
             sub = Ev({a.arg: v for a, v in zip(helpers[name].args.args, args())}, None, hook)
             return sub.run(helpers[name].body)
+        if siblings and name in siblings:
+            fn = siblings[name]
+            ps = [a.arg for a in fn.args.args]
+            env = {}
+            static = any(isinstance(d, ast.Name) and d.id == "staticmethod" for d in fn.decorator_list)
+            if "." in name and ps and not static:
+                env[ps[0]] = None                      # receiver (self / cls): only used to reach further siblings
+                ps = ps[1:]
+            for p_, d_ in zip(ps[len(ps) - len(fn.args.defaults):], fn.args.defaults):
+                env[p_] = Ev({}, None, hook).ev(d_)
+            env.update(zip(ps, args()))
+            env.update({k.arg: ev.ev(k.value) for k in n.keywords if k.arg})
+            return Ev(env, None, hook).run(fn.body)
         return NotImplemented
     return Ev, hook
+
+
+def class_siblings(repo, rel, clsname):
+    """{call text: FunctionDef} for the methods of a class as they are called from inside it, and the functions of its module."""
+    import ast
+    out = {}
+    for n in repo.tree(rel).body:
+        if isinstance(n, ast.FunctionDef):
+            out[n.name] = n
+    seen = {}
+    for m in repo.cls(rel, clsname).body:
+        if isinstance(m, ast.FunctionDef):
+            seen[m.name] = None if m.name in seen else m          # property getter/setter pairs are not helpers
+    for nm, m in seen.items():
+        if m is not None:
+            for pre in ("self.", "cls.", clsname + "."):
+                out[pre + nm] = m
+    return out
 
 
 def rule_clock_round_trip(repo):
@@ -243,7 +276,7 @@ def rule_clock_round_trip(repo):
     from ..src import ExtractError
     from ..peval import Unknown, Raised
     CTRL = "wntr/network/controls.py"
-    Ev, hook = _string_evaluator(repo)
+    Ev, hook = _string_evaluator(repo, class_siblings(repo, CTRL, "ControlCondition"))
     s2c = repo.func(CTRL, "ControlCondition._sec_to_clock")
     pv = repo.func(CTRL, "ControlCondition._parse_value")
     tr = [s for s in pv.body if isinstance(s, ast.Try)]
